@@ -5,8 +5,9 @@ Read from the LIVE objects of /repo's working tree (gen_consts.py has put it fir
 * `protocol.DEFAULT_CONFIG`: the seven attribute switches, `exposed_prefix`, `safe_attrs` (sorted; as
   strings and as code-point lists, which is what the model computes with), the other Boolean switches
   that `SlaveService.on_connect` touches, and EVERY key with its default rendered as text (for later layers).
-* `SlaveService.on_connect`: what it writes into `conn._config`, observed by running it on a recording
-  stand-in connection (not parsed), and whether `DEFAULT_CONFIG` is deep-equal before and after.
+* classic mode: what a connection established through `SlaveService._connect` ends up with, whatever the caller
+  asked for (observed on the established connection, so WHERE the overrides are applied does not matter), and
+  whether `DEFAULT_CONFIG` is deep-equal before and after.
 * which `_rpyc_*attr` hooks `Service` and the class made by `helpers.restricted` define.
 * OBSERVED behaviour (robust against harmless rewrites): which config keys `_check_attr` reads (recording dict);
   that `Connection.__init__` gives every connection its own copy of the defaults overlaid with the caller's dict
@@ -196,51 +197,46 @@ def init_behaviour(protocol, service):
     return own_copy, equals_defaults, overlaid, untouched, frozen
 
 
-class _WriteRecordingDict(dict):
-    """a `_config` that records which keys are written (by item assignment or update)"""
-    def __init__(self, *a, **k):
-        dict.__init__(self, *a, **k)
-        self.written = {}
-
-    def __setitem__(self, k, v):
-        self.written[k] = v
-        dict.__setitem__(self, k, v)
-
-    def update(self, *a, **k):
-        d = dict(*a, **k)
-        self.written.update(d)
-        dict.update(self, d)
-
-    def setdefault(self, k, d=None):
-        if k not in self:
-            self.written[k] = d
-        return dict.setdefault(self, k, d)
-
-
-class _RecordingConn(object):
-    """stand-in for a Connection: `_config` is a shallow copy of the defaults (as in Connection.__init__)"""
-    def __init__(self, defaults):
-        self._config = _WriteRecordingDict(defaults)
-
-
 def slave_update(protocol, service):
+    """What a classic-mode connect grants itself, OBSERVED on the established connection (so it does not matter
+    whether `SlaveService` applies it inside `on_connect` or `_connect` merges it before the Connection is built):
+    `SlaveService._connect(channel, cfg)` is run with every modelled Boolean key given as False and again as True;
+    a key that ends up with the same value both times is SET to it by classic mode, a key that follows the caller
+    is left alone.  Also: DEFAULT_CONFIG deep-equal before/after, prefix and safe list left as the caller gave them."""
     before = copy.deepcopy(protocol.DEFAULT_CONFIG)
-    conn = _RecordingConn(protocol.DEFAULT_CONFIG)
-    svc = service.SlaveService()
+    keys = [k for k, _c in SWITCHES + OTHER_BOOLS]
+
+    def established(svc, value):
+        cfg = dict((k, value) for k in keys)
+        cfg["exposed_prefix"] = "pfx%s_" % value
+        cfg["safe_attrs"] = set(["only_%s" % value])
+        conn = svc._connect(_NullChannel(), cfg)
+        try:
+            return dict((k, conn._config[k]) for k in keys + ["exposed_prefix", "safe_attrs"])
+        finally:
+            conn.close()
     try:
-        svc.on_connect(conn)
+        r_f, r_t = established(service.SlaveService, False), established(service.SlaveService, True)
+        v_f, v_t = established(service.VoidService, False), established(service.VoidService, True)
         unchanged = protocol.DEFAULT_CONFIG == before
     finally:
-        if protocol.DEFAULT_CONFIG != before:          # do not let a leaking on_connect distort the other constants
+        if protocol.DEFAULT_CONFIG != before:          # do not let a leaking connect distort the other constants
             protocol.DEFAULT_CONFIG.clear()
             protocol.DEFAULT_CONFIG.update(before)
-    extra = sorted(k for k in vars(conn) if k != "_config")
-    if extra:
-        raise Inexpressible("SlaveService.on_connect sets attributes on the connection: %s" % extra)
-    for k in conn._config:
-        if k not in conn._config.written and conn._config[k] != before.get(k):
-            unchanged = False                          # a value changed in place (e.g. the shared safe_attrs set)
-    return dict(conn._config.written), unchanged
+    upd = {}
+    for k in keys:
+        if (v_f[k], v_t[k]) != (False, True):
+            raise Inexpressible("a plain service's connection does not keep the caller's %r" % k)
+        if type(r_f[k]) is not bool or type(r_t[k]) is not bool:
+            raise Inexpressible("classic mode leaves %r non-Boolean" % k)
+        if r_f[k] == r_t[k]:
+            upd[k] = r_f[k]
+        elif (r_f[k], r_t[k]) != (False, True):
+            raise Inexpressible("classic mode inverts the caller's %r" % k)
+    for r, value in ((r_f, False), (r_t, True)):
+        if r["exposed_prefix"] != "pfx%s_" % value or r["safe_attrs"] != set(["only_%s" % value]):
+            raise Inexpressible("classic mode changes exposed_prefix / safe_attrs (not carried by the model's update)")
+    return upd, unchanged
 
 
 def hooks_of(cls):
@@ -319,8 +315,8 @@ def gen_policy():
             raise Inexpressible("SlaveService.on_connect sets config key %r, which the model's Config does not carry" % k)
         if type(v) is not bool:
             raise Inexpressible("SlaveService.on_connect sets %r to %r (not a bool)" % (k, v))
-    L += ["", "/-! ### `SlaveService.on_connect`: what it writes into that connection's `_config` (observed on a recording",
-          "stand-in connection); `none` = key left alone -/"]
+    L += ["", "/-! ### classic mode: what a connection established by `SlaveService._connect` has whatever the caller asked",
+          "(observed on the established connection); `none` = key follows the caller -/"]
     for key, camel in SWITCHES + OTHER_BOOLS:
         L.append("def slaveSet%s : Option Bool := %s" % (
             camel, ("some " + lean_bool(upd[key])) if key in upd else "none"))
